@@ -158,7 +158,7 @@ def null_cells(rng, rows, null, density):
 # ---------------------------------------------------------------- option records
 FMT_SUPPORTED = ["%.0f", "%.1f", "%.2f", "%.3f", "%.4f", "%.5f", "%.6f", "%.7f", "%.8f", "%.9f", "%.10f", "%.11f", "%.12f",
                  "%10.3f", "%12.4f", "%3.1f", "%1.0f", "%25.10f"]
-FMT_UNSUPPORTED = ["%.3e", "%g", "%e", "%+.2f", "%010.3f", "%d", "%s", "%.f"]
+FMT_UNSUPPORTED = ["%.3e", "%g", "%e", "%+.2f", "%010.3f", "%d", "%s", "%.f", "%i", "%6d"]
 SPACERS_BLANK = [" ", "  ", "   ", "\t", " \t", "\t\t", "     "]
 SPACERS_OTHER = ["", ",", ", ", ";", "|", " "]            # documented / plausible but outside CfgOK
 FMT_RE = re.compile(r"^%([1-9][0-9]*)?\.([0-9]+)f$")
